@@ -23,6 +23,8 @@ def run(prop, r, seed, meta):
             fn = next((f for f in r.em.functions if f["key"] == fnk), None)
             if fn is None or prop in fn["tags"]:
                 unstable.add((fnk, None, what))
+    mt = mutation_selftest(prop, r)
+    extra.update(mt)
     extra["stability_runs"] = runs
     extra["unstable_obligations"] = [list(map(str, x)) for x in sorted(unstable, key=str)]
     code = 0
@@ -30,3 +32,59 @@ def run(prop, r, seed, meta):
         out.append("UNDECIDED property=%s: solver-unstable obligations: %s" % (prop, sorted(unstable, key=str)[:5]))
         code = 2
     return code, out, extra
+
+
+def mutation_selftest(prop, r):
+    """Apply every catalogued mutant that targets `prop` to a scratch copy of the CURRENT /repo/src, run the pipeline,
+    and record whether some obligation tagged `prop` fails (killed).  Survivors do not change the exit code: they
+    are a measured weakness of the contracts.  Scratch copies live under /var/tmp and are removed."""
+    import json, shutil, tempfile
+    from . import gen
+    from .extract import ExtractError
+    cat_path = os.path.join(P.VERIF, "mutations", "catalogue.json")
+    try:
+        cat = json.load(open(cat_path))["mutants"]
+    except (OSError, ValueError, KeyError):
+        return {"mutants_total": 0, "mutants_killed": 0, "mutants": []}
+    mine = [m for m in cat if prop in m["expect"]]
+    results = []
+    killed = 0
+    for m in mine:
+        scratch = tempfile.mkdtemp(prefix="verif_mut_", dir="/var/tmp")
+        try:
+            shutil.copytree(os.path.join(P.REPO, "src"), os.path.join(scratch, "src"))
+            fpath = os.path.join(scratch, "src", m["file"])
+            src = open(fpath).read()
+            idx = -1
+            start = 0
+            for _ in range(m.get("nth", 0) + 1):
+                idx = src.find(m["find"], start)
+                if idx < 0:
+                    break
+                start = idx + 1
+            if idx < 0:
+                results.append({"id": m["id"], "status": "skipped: pattern no longer occurs in the source"})
+                continue
+            open(fpath, "w").write(src[:idx] + m["replace"] + src[idx + len(m["find"]):])
+            try:
+                em = P.build(repo_root=scratch)
+            except (ExtractError, gen.GenError) as e:
+                results.append({"id": m["id"], "status": "undecided: %s" % str(e)[:200]})
+                continue
+            path = os.path.join(P.BUILD, "bcenv_mutant.rs")
+            open(path, "w").write("\n".join(em.lines))
+            res = P.run_verus(path, multiple_errors=10)
+            an = P.analyse(res, em, path)
+            if an.build_errors:
+                results.append({"id": m["id"], "status": "undecided: generated file does not compile: %s" % an.build_errors[0][:160]})
+                continue
+            hit = sorted({(f["ob"] or ("%s@%s" % (f["kind"], f["fn"]))) for f in an.failures if prop in P.failure_tags(f)})
+            if hit:
+                killed += 1
+                results.append({"id": m["id"], "status": "killed", "obligations": hit[:4]})
+            else:
+                other = sorted({t for f in an.failures for t in P.failure_tags(f)})
+                results.append({"id": m["id"], "status": "SURVIVED", "failed_for_other_properties": other})
+        finally:
+            shutil.rmtree(scratch, ignore_errors=True)
+    return {"mutants_total": len(mine), "mutants_killed": killed, "mutants": results}
